@@ -13,6 +13,7 @@
 package c06
 
 import (
+	"io"
 	"fmt"
 	"os"
 	"path/filepath"
@@ -243,6 +244,9 @@ type e2eCase struct {
 	GenQ *gen.Q
 	// Procs: GOMAXPROCS of the dmap process and of the servers (0 = default)
 	Procs int
+	// Aborted: that many earlier sessions (a dcat of an 8 MB file whose client stops reading and is killed
+	// mid-transfer) ran against every server before the mapreduce run starts
+	Aborted int `json:",omitempty"`
 }
 
 var lineCounts = []int{0, 1, 50, 100, 101, 250, 1000, 5000}
@@ -317,6 +321,12 @@ func genE2E(t *rapid.T) e2eCase {
 	c.Load = rapid.SampledFrom([]int{0, 0, 0, 2, 4}).Draw(t, "load")
 	c.Query = rapid.IntRange(0, 2).Draw(t, "query")
 	c.Procs = rapid.SampledFrom([]int{0, 0, 0, 1, 2}).Draw(t, "procs")
+	if c.Servers > 0 && rapid.Bool().Draw(t, "has-aborted") {
+		c.Aborted = rapid.SampledFrom([]int{1, 2, c.Cats, c.Cats + 1}).Draw(t, "aborted")
+		if c.Aborted > 5 {
+			c.Aborted = 5
+		}
+	}
 	if c.Groups <= 40 && rapid.IntRange(0, 2).Draw(t, "genq") == 0 {
 		q := gen.MaprQuery(table, false).Draw(t, "generated-query")
 		q.HasIntvl, q.Interval = true, 1
@@ -593,6 +603,25 @@ func runE2EWithin(c e2eCase, deadline time.Duration) lib.Outcome {
 			return lib.Outcome{Inconclusive: "client home: " + err.Error()}
 		}
 		args = append(args, "--servers", strings.Join(addrs, ","), "--user", "tester", "--key", keyPath)
+		if c.Aborted > 0 {
+			o.Classes = append(o.Classes, "after-aborted-sessions")
+			line := strings.Repeat("x", 99) + "\n"
+			var blobs []string
+			for s := 0; s < c.Servers; s++ {
+				b := filepath.Join(cdir, "data", fmt.Sprintf("srv%d", s), "big.blob")
+				os.WriteFile(b, []byte(strings.Repeat(line, 80000)), 0o644)
+				blobs = append(blobs, b)
+			}
+			for k := 0; k < c.Aborted; k++ {
+				lib.RunClient("dcat", []string{"--plain", "--servers", strings.Join(addrs, ","), "--user", "tester", "--key", keyPath,
+					"--files", filepath.Join(cdir, "data", "*", "big.blob")},
+					lib.RunOpts{Home: home, Timeout: 400 * time.Millisecond, StdoutPipe: func(r io.Reader) { time.Sleep(600 * time.Millisecond) }})
+			}
+			for _, b := range blobs {
+				os.Remove(b)
+			}
+			time.Sleep(500 * time.Millisecond)
+		}
 		var cs []string
 		for _, p := range c.Sched {
 			if strings.HasPrefix(p, "cli.") {
